@@ -238,6 +238,32 @@ func c02BuildGoModule(work string, cases []*c02IRCase) (map[string]string, error
 				}
 			}
 		}
+		// mutually referring schemas become mutually importing packages: `import cycle not allowed` is
+		// reported as a package / imports chain, not as a `# pkg` block
+		if strings.Contains(out, "import cycle not allowed") {
+			lines := strings.Split(out, "\n")
+			for li, line := range lines {
+				if !strings.HasPrefix(line, "package "+c02GoModule+"/") {
+					continue
+				}
+				chain := []string{strings.TrimPrefix(strings.TrimSpace(line), "package "+c02GoModule+"/")}
+				cyc := false
+				for la := li + 1; la < len(lines) && strings.HasPrefix(strings.TrimSpace(lines[la]), "imports "); la++ {
+					t := strings.TrimPrefix(strings.TrimSpace(lines[la]), "imports ")
+					if i := strings.Index(t, ": import cycle not allowed"); i >= 0 {
+						t, cyc = t[:i], true
+					}
+					chain = append(chain, strings.TrimPrefix(t, c02GoModule+"/"))
+				}
+				if cyc {
+					for _, pkg := range chain {
+						if _, dup := blocks[pkg]; !dup {
+							blocks[pkg] = pkg + "/types_gen.go:1:1: import cycle not allowed (" + strings.Join(chain, " -> ") + ")"
+						}
+					}
+				}
+			}
+		}
 		if len(blocks) == 0 {
 			return nil, fmt.Errorf("go build failed without package diagnostics:\n%s", out)
 		}
@@ -422,6 +448,10 @@ func init() {
 					if d := godiags["frag/"+pkg]; strings.HasPrefix(d, "depends on ") {
 						// the fragment of an imported package does not compile: the compiler never looked at this one
 						fmt.Fprintf(out, "-\tskip %s/%s fragment-not-compiled %s\tok\n", c.ID, pkg, labOneLine(labFirstLine(d)))
+						continue
+					} else if strings.Contains(d, "import cycle not allowed") {
+						// imports are outside the model: mutually referring packages cannot be compiled at all
+						fmt.Fprintf(out, "-\tskip %s/%s fragment-in-import-cycle\tok\n", c.ID, pkg)
 						continue
 					} else if d != "" {
 						verdict = "illtyped:" + c02FirstDiag(d)
